@@ -164,6 +164,14 @@ class Pipeline(Machine):
                                 and not any(f["op"] == op["i"] for f in out):
                             out.append({"op": op["i"], "kind": "stat_fail", "at": j, "errno": s.choice([_errno.EACCES, _errno.EIO])})
                         j += 1
+        if "mutate" in kinds:
+            # the concurrent writer is the one fault that needs a window of two accesses: give it to a good share of the
+            # creates that have no fault yet
+            for op in cands:
+                if op["kind"] == "create" and not any(f["op"] == op["i"] for f in out) and s.chance(0.35):
+                    f = self._aim_mutation(s, op, counts)
+                    if f:
+                        out.append(f)
         return out
 
     @staticmethod
